@@ -149,6 +149,14 @@ fn shared_prefixes(a: &[String], b: &[String]) -> Vec<String> {
     out.into_iter().collect()
 }
 
+/// `conform c14-build`: build (or open) the on-disk database under the XDG_DATA_HOME given by the caller, nothing else
+pub fn build(_args: &[String]) -> i32 {
+    match Db::open() {
+        Ok(_) => 0,
+        Err(_) => 3,
+    }
+}
+
 pub fn trace(args: &[String]) -> i32 {
     quiet_panics();
     let out_path = arg_value(args, "--out").expect("--out");
@@ -280,15 +288,54 @@ pub fn trace(args: &[String]) -> i32 {
             if tie.len() > 1 {
                 tie_phrases.insert(qi);
             }
-            // the constant actually returned must be the top document
-            let desc_ok = match (&o.results[0], o.descriptions.first()) {
-                (Ok(_), Some((_, d))) => win >= 1 && win <= shipped.len() && shipped[win - 1].1.description == *d,
-                _ => false,
+            // the constant that was actually returned (C14 speaks about it, not about the ranking): identified among the
+            // shipped constants by its description; normally it is the top document of the hook's list
+            let returned = match (&o.results[0], o.descriptions.first()) {
+                (Ok(_), Some((_, d))) => {
+                    if win >= 1 && win <= shipped.len() && shipped[win - 1].1.description == *d {
+                        win
+                    } else {
+                        shipped.iter().position(|(_, c)| c.description == *d).map(|i| i + 1).unwrap_or(0)
+                    }
+                }
+                _ => 0,
             };
-            if !desc_ok {
+            if returned != win {
                 problems.push(json!({"session": sid, "phrase": q, "what": "returned constant is not the best-scored document of the hook's list"}));
             }
-            out.line(&json!({"ev": "lookup", "s": sid, "q": qi + 1, "phrase": q, "win": win, "tie": tie, "full": full}));
+            // (0 is the trace specification's "not asked yet": a constant that cannot be identified is -2)
+            let shown: i64 = if returned == 0 { -2 } else { returned as i64 };
+            out.line(&json!({"ev": "lookup", "s": sid, "q": qi + 1, "phrase": q, "win": shown, "tie": tie, "full": full}));
+        }
+    }
+    // Builds under contention: several processes build their own on-disk index at the same time (scheduling of any
+    // threads involved in a build differs from the quiet, sequential builds above); their layouts join the comparison.
+    let stress = arg_num(args, "--stress", 12) as usize;
+    if stress > 0 {
+        let exe = std::env::current_exe().expect("own path");
+        for round in 0..2 {
+            let mut kids = Vec::new();
+            for k in 0..stress {
+                let dir = work.join(format!("stress{}-{}", round, k));
+                let _ = std::fs::create_dir_all(&dir);
+                let child = std::process::Command::new(&exe).arg("c14-build").env("XDG_DATA_HOME", &dir).env("HOME", &dir)
+                    .stdout(std::process::Stdio::null()).stderr(std::process::Stdio::null()).spawn();
+                if let Ok(c) = child {
+                    kids.push((dir, c));
+                }
+            }
+            for (dir, mut c) in kids {
+                let ok = c.wait().map(|s| s.success()).unwrap_or(false);
+                if !ok {
+                    problems.push(json!({"what": "a concurrent on-disk build failed", "dir": dir.display().to_string()}));
+                    continue;
+                }
+                if let Some(l) = layout(&dir.join("facts/index"), &key_pos) {
+                    let sid = 200 + layouts.len();
+                    out.line(&json!({"ev": "layout", "s": sid, "segments": l.len(), "flat": l.iter().flatten().copied().collect::<Vec<usize>>()}));
+                    layouts.push((sid, dir, l));
+                }
+            }
         }
     }
     // Layout-guided search for witnesses: where two on-disk builds order two documents differently, ask both (reopened
